@@ -11,6 +11,8 @@ mod replay;
 mod snap;
 mod workload;
 
+use std::io::Write as _;
+
 use vrt::{J, Value, json};
 
 fn recording(tier: &str, seed: u64) -> (workload::Recording, String) {
@@ -66,19 +68,48 @@ fn main() {
                 vrt::die(&format!("workload is not reproducible: digest {d} != recorded {want}"));
             }
             let mut rp = replay::Replayer::new(&rec, dense, "img");
-            let mut out = args.out();
-            let mut results: Vec<Option<Value>> = vec![None; items.len()];
-            let emit = |i: usize, r: Result<Value, replay::Failure>| -> Value {
-                match r {
+            let limit = std::time::Duration::from_secs(args.opt_u64("limit", 60));
+            // results are streamed; a watchdog turns a hang of the code under test (e.g. a cyclic
+            // chain read from a corrupt image) into a failing result for the current item
+            let outp = args.output.clone().unwrap_or_else(|| vrt::die("--out required"));
+            let outf = std::fs::File::create(&outp).unwrap_or_else(|e| vrt::die(&format!("create {outp}: {e}")));
+            let out = std::sync::Arc::new(std::sync::Mutex::new(std::io::BufWriter::new(outf)));
+            let cur: std::sync::Arc<std::sync::Mutex<Option<(usize, std::time::Instant)>>> = Default::default();
+            {
+                let (out, cur) = (out.clone(), cur.clone());
+                std::thread::spawn(move || loop {
+                    std::thread::sleep(std::time::Duration::from_millis(250));
+                    let c = *cur.lock().unwrap_or_else(|p| p.into_inner());
+                    if let Some((i, t0)) = c {
+                        if t0.elapsed() > limit {
+                            let mut o = out.lock().unwrap_or_else(|p| p.into_inner());
+                            let v = json!({"i": i, "ok": false, "step": -1, "key": "C15:hang", "obs": {},
+                                "msg": format!("reopening / reading / committing on the crash image did not finish within {}s (endless loop in the code under test on this image)", limit.as_secs())});
+                            let _ = writeln!(o, "{v}");
+                            let _ = o.flush();
+                            let _ = std::fs::remove_dir_all(workload::scratch_dir_path("img"));
+                            std::process::exit(0);
+                        }
+                    }
+                });
+            }
+            let emit = |i: usize, r: Result<Value, replay::Failure>| {
+                let v = match r {
                     Ok(obs) => json!({"i": i, "ok": true, "step": -1, "obs": obs}),
                     Err(f) => json!({"i": i, "ok": false, "step": -1, "key": f.key, "msg": f.msg, "obs": f.obs}),
-                }
+                };
+                let _ = writeln!(out.lock().unwrap_or_else(|p| p.into_inner()), "{v}");
+            };
+            let set = |v: Option<usize>| {
+                *cur.lock().unwrap_or_else(|p| p.into_inner()) = v.map(|i| (i, std::time::Instant::now()));
             };
             // pass 1: states of the completed commits
             for (i, it) in items.iter().enumerate() {
                 if it.s("t") == "commit" {
+                    set(Some(i));
                     let r = rp.commit_state(it.u("j"), it.u("sync") as usize).unwrap_or_else(|e| vrt::die(&e));
-                    results[i] = Some(emit(i, r.map(|()| json!({"commit": it.u("j")}))));
+                    set(None);
+                    emit(i, r.map(|()| json!({"commit": it.u("j")})));
                 }
             }
             // pass 2: returns and crash plans
@@ -88,20 +119,19 @@ fn main() {
                     "commit" => {}
                     "ret" => {
                         let r = rp.check_ret(it.u("k") as usize, it.u("last"));
-                        results[i] = Some(emit(i, r.map(|()| json!({"ret": it.u("k")}))));
+                        emit(i, r.map(|()| json!({"ret": it.u("k")})));
                     }
                     "plan" => {
+                        set(Some(i));
                         let r = rp.check_plan(it).unwrap_or_else(|e| vrt::die(&e));
-                        results[i] = Some(emit(i, r));
+                        set(None);
+                        emit(i, r);
                     }
                     t => vrt::die(&format!("unknown item type {t}")),
                 }
             }
             rp.cleanup();
-            for r in results.into_iter().flatten() {
-                out.emit(r);
-            }
-            out.finish();
+            let _ = out.lock().unwrap_or_else(|p| p.into_inner()).flush();
         }
         s => vrt::die(&format!("unknown subcommand {s}")),
     }
